@@ -522,6 +522,7 @@ Mk1(kind, x) ==
       [] kind = "Idx0"       -> <<"Sub", x, C(I(0))>>                                \* x[0]
       [] kind = "IdxNeg"     -> <<"Sub", x, C(I(-1))>>                               \* x[-1]
       [] kind = "SubOfStr"   -> <<"Sub", C(Str2("a", "b")), x>>                      \* 'ab'[x]
+      [] kind = "NegConstPow" -> <<"Bin", "Pow", C(I(-2)), x>>                           \* (-2) ** x
       [] kind = "SliceFrom1" -> <<"Slice", x, C(I(1)), <<"Omit">>>>                  \* x[1:]
       [] kind = "IsNone"     -> Cmp1("Is", x, C(None))
       [] kind = "IsNotNone"  -> Cmp1("IsNot", x, C(None))
@@ -572,7 +573,7 @@ Mk3(kind, x, y, z) ==
 UnSeq  == <<"Not", "USub", "UAdd", "Invert">>
 BinSeq == <<"Add", "Sub", "Mult", "FloorDiv", "Mod", "Pow", "LShift", "RShift", "BitOr", "BitXor", "BitAnd">>
 CmpSeq == <<"Eq", "NotEq", "Lt", "LtE", "Gt", "GtE", "Is", "IsNot", "In", "NotIn">>
-Un1All  == UnSeq \o <<"AttrP", "AttrQ", "AttrImag", "AttrPP", "Len", "Idx0", "IdxNeg", "SubOfStr", "SliceFrom1", "IsNone", "IsNotNone",
+Un1All  == UnSeq \o <<"AttrP", "AttrQ", "AttrImag", "AttrPP", "Len", "Idx0", "IdxNeg", "SubOfStr", "NegConstPow", "SliceFrom1", "IsNone", "IsNotNone",
                       "InT12", "Tuple1", "Mk1", "MkK", "StartsA", "LamBody", "LamArg", "LamDef", "FPlain", "FRepr", "FStrc", "FSpec",
                       "FConvSpec", "FBrace", "FBraceName">>
 Bin2All == <<"And", "Or">> \o CmpSeq \o BinSeq \o <<"Subscr", "SliceTo", "Tuple2", "CallF", "Mk2", "MkKw", "StartsW", "LamLet", "F2", "FSpecN">>
